@@ -114,13 +114,23 @@ var c12Attacks = []string{
 
 const c12NRealmAttacks = 17
 
+// c12PstBaseline is pst.Snapshot() right after initialization.
+const c12PstBaseline = "c=1 S=1,2,3, M=1:1:0:0 B=1 P=0 A=1,2,3, L=1>"
+
+// c12Observe is appended to every attempt: the attempt itself looks at the
+// package state afterwards, so that a write which is visible inside the
+// transaction (even if it is never persisted) is reported.
+const c12Observe = `if s := pst.Snapshot(); s != "` + c12PstBaseline + `" {
+		panic("P-STATE-MUTATED: " + s)
+	}`
+
 func c12MutrSrc() string {
 	var sb strings.Builder
-	sb.WriteString("package mutr\n\nimport \"" + c12PathPst + "\"\n\nvar Keep *pst.Box\n\nfunc Do(cur realm, n int) {\n\tswitch n {\n")
+	sb.WriteString("package mutr\n\nimport \"" + c12PathPst + "\"\n\nvar Keep *pst.Box\n\nfunc Do(cur realm, n int, obs bool) {\n\tswitch n {\n")
 	for i := 0; i < c12NRealmAttacks; i++ {
 		fmt.Fprintf(&sb, "\tcase %d:\n\t\t%s\n", i, strings.ReplaceAll(c12Attacks[i], "; ", "\n\t\t"))
 	}
-	sb.WriteString("\tcase 100:\n\t\tKeep = pst.B\n\tcase 101:\n\t\tKeep.N = 11\n\t}\n}\n")
+	sb.WriteString("\tcase 100:\n\t\tKeep = pst.B\n\tcase 101:\n\t\tKeep.N = 11\n\tcase 102:\n\t\t// observe only\n\t}\n\tif obs {\n\t" + c12Observe + "\n\t}\n}\n")
 	return sb.String()
 }
 
@@ -138,6 +148,7 @@ type c12Op struct {
 	Deploys []c12Deploy `json:"deploys,omitempty"`
 	Attack  int         `json:"attack,omitempty"`
 	Via     string      `json:"via,omitempty"` // run | realm
+	Obs     bool        `json:"obs,omitempty"` // the attempt itself re-reads the package state afterwards
 }
 
 type c12Case struct {
@@ -148,6 +159,7 @@ type c12Case struct {
 var c12BasePaths = []string{
 	"gno.land/r/c12/aa", "gno.land/r/c12/aa", "gno.land/r/c12/bb", "gno.land/p/c12/aa", "gno.land/r/c12/aa/v2",
 	"gno.land/r/alice/xx", "gno.land/r/bob/xx", "gno.land/p/alice/lib", "gno.land/r/carol/xx", "gno.land/r/c12/sub-x_y/aa",
+	"gno.land/r/alice/yy", "gno.land/p/bob/lib", "gno.land/r/bob/zz/v2",
 }
 
 // c12Hostile builds near-valid variants of a valid path.
@@ -207,8 +219,9 @@ func c12Draw(rt *rapid.T) c12Case {
 		if rapid.IntRange(0, 4).Draw(rt, "kind") == 0 {
 			op.Kind = "mutp"
 			op.Via = rapid.SampledFrom([]string{"run", "realm"}).Draw(rt, "via")
+			op.Obs = rapid.Bool().Draw(rt, "obs")
 			if op.Via == "realm" {
-				op.Attack = rapid.SampledFrom([]int{0, 1, 2, 3, 4, 5, 6, 7, 8, 9, 10, 11, 12, 13, 14, 15, 16, 100, 101}).Draw(rt, "attack")
+				op.Attack = rapid.SampledFrom([]int{0, 1, 2, 3, 4, 5, 6, 7, 8, 9, 10, 11, 12, 13, 14, 15, 16, 100, 101, 102, 102}).Draw(rt, "attack")
 			} else {
 				op.Attack = rapid.IntRange(0, len(c12Attacks)-1).Draw(rt, "attack")
 			}
@@ -225,7 +238,7 @@ func c12Draw(rt *rapid.T) c12Case {
 					// come back to a path used before, with another file set / version / visibility
 					d0 := prev[rapid.IntRange(0, len(prev)-1).Draw(rt, "prev")]
 					d.Path, d.Name = d0.Path, c12NameFor(d0.Path)
-					d.Private = rapid.IntRange(0, 3).Draw(rt, "private2") != 0
+					d.Private = rapid.Bool().Draw(rt, "private2")
 					if d0.Private && (d0.Files == 1 || d0.Files == 4 || d0.Files == 5) {
 						d.Files = rapid.SampledFrom([]int{0, 2, 0, 2, 1, 3}).Draw(rt, "files2") // mostly drop the test files
 					}
@@ -433,6 +446,9 @@ func c12Exec(ctx *vk.Ctx, c c12Case) error {
 	if e.pstSnap, e.pstObjs, err = e.pstState(); err != nil {
 		return err
 	}
+	if !strings.Contains(e.pstSnap, c12PstBaseline) {
+		return fmt.Errorf("harness: unexpected initial state of %s: %s", c12PathPst, e.pstSnap)
+	}
 	if len(e.pstObjs) < 5 {
 		return fmt.Errorf("harness: only %d persisted objects found for %s", len(e.pstObjs), c12PathPst)
 	}
@@ -449,9 +465,9 @@ func c12Exec(ctx *vk.Ctx, c c12Case) error {
 		case "mutp":
 			var msg std.Msg
 			if op.Via == "realm" {
-				msg = ec.Call(creator.Addr, c12PathMutr, "Do", []string{strconv.Itoa(op.Attack)}, nil)
+				msg = ec.Call(creator.Addr, c12PathMutr, "Do", []string{strconv.Itoa(op.Attack), strconv.FormatBool(op.Obs || op.Attack == 102)}, nil)
 			} else {
-				body := "package main\n\nimport \"" + c12PathPst + "\"\n\nfunc main() {\n\t" + strings.ReplaceAll(c12Attacks[op.Attack%len(c12Attacks)], "; ", "\n\t") + "\n}\n"
+				body := "package main\n\nimport \"" + c12PathPst + "\"\n\nfunc main() {\n\t" + strings.ReplaceAll(c12Attacks[op.Attack%len(c12Attacks)], "; ", "\n\t") + "\n\t" + map[bool]string{true: c12Observe, false: ""}[op.Obs] + "\n}\n"
 				msg = vm.NewMsgRun(creator.Addr, nil, []*std.MemFile{{Name: "main.gno", Body: body}})
 			}
 			r, _, err := ch.Send([]std.Msg{msg}, 80_000_000, 1_000_000, creator)
@@ -467,6 +483,9 @@ func c12Exec(ctx *vk.Ctx, c c12Case) error {
 				ctx.Class("mutp-refused-readonly")
 			}
 			nt = true
+			if r.Error != nil && strings.Contains(r.Log+r.Error.Error(), "P-STATE-MUTATED") {
+				return fmt.Errorf("%s: inside the transaction the state of %s was observed changed after initialization: %.300s", label, c12PathPst, r.Error.Error()+" "+r.Log)
+			}
 			snap, objs, err := e.pstState()
 			if err != nil {
 				return err
@@ -537,6 +556,8 @@ func c12Exec(ctx *vk.Ctx, c c12Case) error {
 					}
 					if _, ok := c12ValidPath(d.Path); !ok {
 						ctx.Class("refused-hostile-path")
+					} else if c.Registry && !c12Authorized(e.keys, op.Creator, d.Path) {
+						ctx.Class("refused-valid-path-unauthorized-creator")
 					}
 				}
 				ctx.Class("deploy-tx-refused")
@@ -684,8 +705,16 @@ func c12DiffMaps(a, b map[string][]byte) string {
 func TestC12_CodeImmutable(t *testing.T) {
 	vk.Run(t, vk.Spec[c12Case]{
 		ID: "C12", Name: "TestC12_CodeImmutable",
-		Rule: "rapid: 4-10 transactions (one per block) on the real app, with or without a namespace registry realm at gno.land/r/sys/names: add-package txs of 1-2 messages over 9 colliding base paths (/r/, /p/, versioned, three namespaces) and ~45 hostile variants (case, '/', '//', '..', unicode look-alike, _test/_filetest, /e/ run paths, other domains, '#', ':', NUL, %-escapes, over-long, bad separators), 6 file sets (prod only, with _test, several files + README, test-only, with _filetest, LICENSE), 4 content versions, public/private, 3 creators, mismatching package names; interleaved with 21 kinds of writes to the state of a /p/ package from MsgRun and from a realm; non-trivial = an accepted deployment was followed by a colliding attempt on the same path, or a /p/ mutation attempt ran",
+		Rule: "rapid: 4-10 transactions (one per block) on the real app, with or without a namespace registry realm at gno.land/r/sys/names: add-package txs of 1-2 messages over 12 colliding base paths (/r/, /p/, versioned, three namespaces) and ~45 hostile variants (case, '/', '//', '..', unicode look-alike, _test/_filetest, /e/ run paths, other domains, '#', ':', NUL, %-escapes, over-long, bad separators), 6 file sets (prod only, with _test, several files + README, test-only, with _filetest, LICENSE), 4 content versions, public/private, 3 creators, mismatching package names; interleaved with 21 kinds of writes to the state of a /p/ package from MsgRun and from a realm; non-trivial = an accepted deployment was followed by a colliding attempt on the same path, or a /p/ mutation attempt ran",
 		Draw: c12Draw,
 		Exec: c12Exec,
 	})
+}
+
+// pstSnapOrInit returns the recorded initial snapshot, recording s first if none is stored.
+func (e *c12Env) pstSnapOrInit(s string) string {
+	if e.pstSnap == "" {
+		e.pstSnap = s
+	}
+	return e.pstSnap
 }
